@@ -329,32 +329,7 @@ def select_rule(P, chk):
 # --------------------------------------------------------------------------- extractor
 
 def underlying_local(b, operand):
-    """the named local an operand is a (clone of a) borrow of"""
-    o = operand
-    for _ in range(10):
-        if o.get("k") not in ("copy", "move"):
-            return None
-        pl = o["place"]
-        l = pl["l"]
-        if b.local_name(l) and not (1 <= l <= b.argc and False):
-            return l
-        d = mir.single_def(b, l)
-        if d is None:
-            return l
-        if d[0] == "call":
-            t = d[4]
-            if callee_names(t) & mir._transparent() and t["args"]:
-                o = t["args"][0]
-                continue
-            return l
-        rv = d[4]
-        if rv["k"] in ("ref", "copyforderef"):
-            o = {"k": "copy", "place": rv["place"]}
-        elif rv["k"] in ("use", "cast"):
-            o = rv["op"]
-        else:
-            return l
-    return None
+    return q.named_local(b, operand)
 
 
 def rules_in_order(P, chk):
